@@ -99,6 +99,9 @@ impl<T: Payload> Scn<T> {
     pub fn hits(&self) -> [u64; kanal::verif::N_POINTS] {
         fp::hits_delta(&self.hits0)
     }
+    pub fn n_workers(&self) -> usize {
+        self.workers.len()
+    }
     pub fn role_of(&self, w: usize) -> u32 {
         w as u32 + 1
     }
